@@ -77,6 +77,15 @@ def judge_one(mon: Mon, S, cc, bban, table, tag):
         ofp = observe(S.IBAN.from_bban, cc, arg, False, True)
         if ofb.ok != o_flag.ok or ofp.ok != o_flag.ok:
             mon.viol(f"from_bban_with_flag_disagrees:{form}", w, o_flag.brief(), [ofb.brief(), ofp.brief()])
+    # the BBAN-level check asked of an object whose country code is spelt non-canonically: a library error (the
+    # code is unknown as spelt) or the verdict of the canonical spelling - never a silent "passed"
+    for carg in (cc.lower(), cc[0] + cc[1].lower(), cc + " "):
+        onc = observe(lambda: S.BBAN(carg, bban).validate_national_checksum())
+        mon.tally("bban_check_with_non_canonical_country_code")
+        if onc.ok and not o_bb.ok:
+            mon.viol("bban_check_passes_under_non_canonical_country_code", {**w, "country_arg": carg}, o_bb.brief(), onc.brief())
+        elif not onc.ok and not judge.is_lib_exc(onc.exc):
+            mon.viol(f"escape:bban_check:{onc.exc_name}", {**w, "country_arg": carg}, "library error", onc.brief())
     # a BBAN object with this text but labelled with another country (one without / one with another algorithm)
     for other in _foreign_labels(cc, table):
         off = observe(S.IBAN.from_bban, cc, S.BBAN(other, bban), validate_bban=True)
